@@ -24,5 +24,5 @@ void sync(Substrate& s, unsigned W, unsigned R, bool b, bool a, const std::strin
 }
 void resetMirrors(Substrate& s) { s.reset_mirrorField<Reduce_max_f_max>(); }
 } // namespace
-const c18::FieldVT c18::vt_f_max = {"f_max", "GALOIS_SYNC_STRUCTURE_REDUCE_MAX(uint64_t)", R_MAX, K_U64, 1, true,
+const c18::FieldVT c18::vt_f_max = {"f_max", "GALOIS_SYNC_STRUCTURE_REDUCE_MAX(uint64_t)", R_MAX, K_U64, 1, true, true,
                                     store, load, write, &bitset_f_max, sync, resetMirrors};
